@@ -212,6 +212,17 @@ func (t Term) subst(sub map[string]Term) Term {
 				}
 				continue
 			}
+			if app, ok := fnApps[sname]; ok {
+				args := make([]Term, len(app.args))
+				for i, a := range app.args {
+					args[i] = a.subst(sub)
+				}
+				f := termFn(app.name, args...)
+				for k := 0; k < pw; k++ {
+					prod = prod.mul(f)
+				}
+				continue
+			}
 			name := sname
 			for ph, u := range sub {
 				if strings.Contains(name, ph) {
@@ -310,8 +321,21 @@ func termFn(name string, args ...Term) Term {
 		}
 		parts[i] = a.String()
 	}
-	return termOpaque(name + "(" + strings.Join(parts, ", ") + ")")
+	full := name + "(" + strings.Join(parts, ", ") + ")"
+	if strings.Contains(full, "@inl") {
+		fnApps[full] = fnApp{name, append([]Term(nil), args...)}
+	}
+	return termOpaque(full)
 }
+
+// fnApps remembers, for applications that mention a placeholder, how they were built, so that substitution rebuilds
+// them (and renders their arguments in canonical order) instead of editing their text.
+type fnApp struct {
+	name string
+	args []Term
+}
+
+var fnApps = map[string]fnApp{}
 
 // ---- parsing oracle terms -----------------------------------------------------
 
